@@ -103,6 +103,17 @@ def run_binding(rep, tier, seed):
             rep.extra["gpsd_unlocked_variant_shows_torn_pair"] = (not res["ok"]) and "NoTornPair" in res["violated"]
             if res["ok"]:
                 raise core.ToolError("anti-vacuity: the unlocked Gpsd variant no longer violates NoTornPair")
+    if tier == "thorough":
+        # unbounded counterpart (TLAPS): any sequence of fixes, any interleaving
+        import subprocess
+        r = subprocess.run(["timeout", "900", "tlapm", "--threads", "4", "--cleanfp", "Gpsd_proofs.tla"], cwd=core.SPEC,
+                           stdout=subprocess.PIPE, stderr=subprocess.STDOUT, text=True)
+        subprocess.run(["rm", "-rf", core.SPEC + "/.tlacache"])
+        import re
+        m = re.search(r"All (\d+) obligations proved", r.stdout)
+        if not m:
+            raise core.ToolError("tlapm did not prove Gpsd_proofs.tla: " + r.stdout[-600:])
+        rep.extra["gpsd_tlaps_obligations_proved"] = int(m.group(1))
     bindir = core.build_apps()
     rng = random.Random(seed * 31 + 5)
     n = 1 if tier == "quick" else 6
